@@ -23,13 +23,16 @@ def case(ctx, rng):
     targets, files, defs_by_target, dir_by_target, argdir_by_target = [], [], {}, {}, {}
     cmds = rng.sample(["build", "test"], rng.randint(1, 2))
     cfg_targets = []
+    shared_cmd_dir = rng.random() < 0.4          # several targets point at ONE command directory and differ only in definitions
     for i in range(n):
         p = "svc%d" % i if rng.random() < 0.7 else "pkg/deep/t%d" % i
         t = {"path": p}
         if rng.random() < 0.3:
             t["argmaps"] = {"path": p + "/conf/am"}; argdir_by_target[p] = p + "/conf/am"
         else: argdir_by_target[p] = p + "/monorail/argmap"
-        if rng.random() < 0.3:
+        if shared_cmd_dir and rng.random() < 0.8:
+            t["commands"] = {"path": "tools/cmd"}; dir_by_target[p] = "tools/cmd"
+        elif rng.random() < 0.3:
             t["commands"] = {"path": p + "/scripts"}; dir_by_target[p] = p + "/scripts"
         else: dir_by_target[p] = p + "/monorail/cmd"
         cfg_targets.append(t); targets.append(p)
@@ -38,14 +41,21 @@ def case(ctx, rng):
     try:
         # commands: by stem (various extensions, decoys) or by definition path
         resolution = {}
+        entries_by_dir = {}                        # one (shared) entry list per command directory
+        def stem_file(d, entries, c, p, ext):
+            """the file of directory d whose stem is c (the property assumes there is at most one): installed once"""
+            have = [e for e in entries if e == c or (e.startswith(c + ".") and "." not in e[len(c) + 1:])]
+            if have: return have[0]
+            rr.install(c, p, "exec", cmd_dir=d, ext=ext); entries.append(c + ext); return c + ext
         for t in cfg_targets:
             p = t["path"]; d = os.path.join(rr.repo, dir_by_target[p]); os.makedirs(d, exist_ok=True)
-            entries = []
+            entries = entries_by_dir.setdefault(dir_by_target[p], [])
+            shared = dir_by_target[p] == "tools/cmd"
             for c in cmds:
-                kind = rng.choice(["stem", "stem", "stem_ext", "defpath", "def_empty", "undef", "defpath_missing"])
+                kind = rng.choice(["stem", "stem", "stem_ext", "defpath", "def_empty", "undef", "defpath_missing"] + (["defpath", "defpath"] if shared else []))
                 if kind in ("stem", "stem_ext", "def_empty"):
                     ext = "" if kind == "stem" else rng.choice([".sh", ".py", ".bin"])
-                    rr.install(c, p, "exec", cmd_dir=d, ext=ext); entries.append(c + ext)
+                    stem_file(d, entries, c, p, ext)
                     if kind == "def_empty": t.setdefault("commands", {}).setdefault("definitions", {})[c] = {"path": ""}
                 elif kind == "defpath":
                     rel = "tools/bin/%s_%s_impl" % (p.replace("/", "_"), c)
@@ -54,20 +64,18 @@ def case(ctx, rng):
                     os.symlink(vlib.BIN_VHELPER, os.path.join(rr.repo, rel))
                     t.setdefault("commands", {}).setdefault("definitions", {})[c] = {"path": rel}
                     # a same-stem file in the command directory must NOT be chosen
-                    if rng.random() < 0.5: rr.install(c, p, "exec", cmd_dir=d, ext=".decoy"); entries.append(c + ".decoy")
+                    if rng.random() < 0.5: stem_file(d, entries, c, p, ".decoy")
                 elif kind == "defpath_missing":
                     # the configured path does not exist (renamed/deleted script) while a file with the command's stem sits in
                     # the command directory: the configured path is still THE executable - nothing else may be started
                     rel = "tools/bin/%s_%s_gone" % (p.replace("/", "_"), c)
                     t.setdefault("commands", {}).setdefault("definitions", {})[c] = {"path": rel}
-                    rr.install(c, p, "exec", cmd_dir=d, ext=".sh"); entries.append(c + ".sh")
+                    stem_file(d, entries, c, p, ".sh")
                 resolution[(c, p)] = kind
             for decoy in rng.sample(["builder.sh", "xbuild", "build.tar.gz", "tests", ".build"], 2):
-                if all(not e.startswith(decoy.split(".")[0] + ".") and e != decoy for e in entries) or True:
-                    fp = os.path.join(d, decoy)
-                    if not os.path.lexists(fp): os.symlink(vlib.BIN_VHELPER, fp); entries.append(decoy)
+                fp = os.path.join(d, decoy)
+                if not os.path.lexists(fp): os.symlink(vlib.BIN_VHELPER, fp); entries.append(decoy)
             dir_by_target[p + "#entries"] = entries
-            if "commands" in t and "path" not in t["commands"]: pass
         # argmap files
         for t in cfg_targets:
             p = t["path"]; d = os.path.join(rr.repo, argdir_by_target[p]); os.makedirs(d, exist_ok=True)
@@ -129,7 +137,8 @@ def case(ctx, rng):
         v = ctx.model.call("plan", files, use_base, names, sorted(set(run_targets)), run_args, queries)
         agree = bool(v[2])
         ok = agree and cwd_ok
-        ctx.count("single" if single else "multi"); ctx.count("base_on" if use_base else "base_off"); ctx.count("argmaps_%d" % len(names))
+        ctx.count("single" if single else "multi"); ctx.count("shared_command_dir" if sum(1 for t in targets if dir_by_target[t] == "tools/cmd") >= 2 else "own_command_dirs")
+        ctx.count("base_on" if use_base else "base_off"); ctx.count("argmaps_%d" % len(names))
         ctx.record(case_d, True, agree, ok, multi,
                    sample={"args": args, "children": [[q[1], q[0], [a.decode("utf-8", "replace") for a in q[2]]] for q in queries][:4]} if multi else None,
                    detail={"cwd_ok": cwd_ok, "model": v[1], "impl": [[q[0], q[1], [a.decode("utf-8", "replace") if isinstance(a, bytes) else a for a in q[2]], q[5]] for q in queries], "rc": rc})
